@@ -94,6 +94,16 @@ class ndarray:
   def __rsub__(self, other):
     return self._ew(other, lambda a, b: b - a)
 
+  def reshape(self, shape):
+    """1-D -> [-1, L] only (rows become tuples)."""
+    shape = list(shape)
+    if self.trailing or len(shape) != 2 or shape[0] != -1:
+      raise NotImplementedError('reshape %r' % (shape,))
+    L = shape[1]
+    if L <= 0 or len(self.rows) % L:
+      raise ValueError('cannot reshape array of size %d into shape %r' % (len(self.rows), shape))
+    return ndarray([tuple(self.rows[i:i + L]) for i in range(0, len(self.rows), L)], self.dtype, (L,))
+
   def astype(self, dtype):
     return ndarray(list(self.rows), dtype, self.trailing)
 
@@ -129,6 +139,16 @@ def ones(shape, dtype='float64'):
   n, tr = _n(shape)
   assert not tr
   return ndarray([True if dtype == 'bool' else 1 for _ in range(n)], dtype)
+
+
+def full(shape, value, dtype='float64'):
+  n, tr = _n(shape)
+  assert not tr
+  return ndarray([value for _ in range(n)], dtype)
+
+
+def full_like(a, value):
+  return ndarray([value for _ in a.rows], a.dtype, a.trailing)
 
 
 def arange(n, dtype='int64'):
